@@ -7,9 +7,9 @@ from xsdata.utils import text
 __uri_ignore__ = ("www", "xsd", "wsdl")
 
 URI_REGEX = re.compile(
-    r"^(([a-zA-Z][0-9a-zA-Z+\\-\\.]*:)?"
-    r"/{0,2}[0-9a-zA-Z;/?:@&=+$\\.\\-_!~*'()%]+)?"
-    r"(#[0-9a-zA-Z;/?:@&=+$\\.\\-_!~*'()%]+)?$"
+    r"^(([a-zA-Z][0-9a-zA-Z+\-.]*:)?"
+    r"/{0,2}[0-9a-zA-Z;/?:@&=+$,.\-_!~*'()%]+)?"
+    r"(#[0-9a-zA-Z;/?:@&=+$,.\-_!~*'()%]+)?$"
 )
 
 
